@@ -603,24 +603,27 @@ func dominatingConds(be *bigEnv, b *ssa.BasicBlock) map[string]bool {
 	return out
 }
 
+// asn1Rule: c02ASN1 is shared with C14 (serialisation round trips), which runs it under its own rule name
+var asn1Rule = "K-C02-asn1"
+
 func c02ASN1(c *Ctx) {
 	// struct layout
 	pk := c.P.Pkgs["sm2"]
 	obj := pk.Types.Scope().Lookup("sm2Cipher")
 	if obj == nil {
-		c.Missing("K-C02-asn1", "sm2.sm2Cipher", "type", "ASN.1 ciphertext structure not found")
+		c.Missing(asn1Rule, "sm2.sm2Cipher", "type", "ASN.1 ciphertext structure not found")
 	} else if st := derefStruct(obj.Type()); st != nil {
 		var fs []string
 		for i := 0; i < st.NumFields(); i++ {
 			fs = append(fs, shortType(st.Field(i).Type()))
 		}
 		got := strings.Join(fs, ",")
-		c.Check(got == "*math/big.Int,*math/big.Int,[]byte,[]byte", "K-C02-asn1", "sm2.sm2Cipher", "SEQUENCE{INTEGER,INTEGER,OCTET STRING,OCTET STRING}", "", "ASN.1 ciphertext fields are ("+got+")", obj.Pos())
+		c.Check(got == "*math/big.Int,*math/big.Int,[]byte,[]byte", asn1Rule, "sm2.sm2Cipher", "SEQUENCE{INTEGER,INTEGER,OCTET STRING,OCTET STRING}", "", "ASN.1 ciphertext fields are ("+got+")", obj.Pos())
 	}
 	m := c.Fn("sm2", "CipherMarshal")
 	u := c.Fn("sm2", "CipherUnmarshal")
 	if m == nil || u == nil {
-		c.Missing("K-C02-asn1", "sm2.CipherMarshal/CipherUnmarshal", "functions", "not found")
+		c.Missing(asn1Rule, "sm2.CipherMarshal/CipherUnmarshal", "functions", "not found")
 		return
 	}
 	mbe := newBigEnv(m, paramNames(m, "data"))
@@ -632,9 +635,9 @@ func c02ASN1(c *Ctx) {
 		}
 		D := "slice(data,0x1,_)"
 		want := "x=frombytes(slice(" + D + ",_,0x20)) y=frombytes(slice(" + D + ",0x20,0x40)) hash=slice(" + D + ",0x40,0x60) cipher=slice(" + D + ",0x60,_)"
-		c.Check(got == want, "K-C02-asn1", fname(m), "fields taken from offsets 1/33/65/97", "", "CipherMarshal encodes "+got+", expected "+want, call.Pos())
+		c.Check(got == want, asn1Rule, fname(m), "fields taken from offsets 1/33/65/97", "", "CipherMarshal encodes "+got+", expected "+want, call.Pos())
 	} else {
-		c.Violated("K-C02-asn1", fname(m), "asn1.Marshal", "CipherMarshal does not call asn1.Marshal", m.Pos())
+		c.Violated(asn1Rule, fname(m), "asn1.Marshal", "CipherMarshal does not call asn1.Marshal", m.Pos())
 	}
 	ube := newBigEnv(u, paramNames(u, "data"))
 	uspec, _ := defaultResultSpec(u)
@@ -646,12 +649,12 @@ func c02ASN1(c *Ctx) {
 		}
 		got := ube.bytesOf(ret.Results[0], ret).String()
 		want := "concat(lit(0x4),pad32(local(sm2.sm2Cipher).XCoordinate),pad32(local(sm2.sm2Cipher).YCoordinate),local(sm2.sm2Cipher).HASH,local(sm2.sm2Cipher).CipherText)"
-		c.Check(got == want, "K-C02-asn1", fname(u), "0x04||pad32(x)||pad32(y)||hash||cipher", "", "CipherUnmarshal rebuilds "+got, ret.Pos())
+		c.Check(got == want, asn1Rule, fname(u), "0x04||pad32(x)||pad32(y)||hash||cipher", "", "CipherUnmarshal rebuilds "+got, ret.Pos())
 	}
 	un := findCall(u, "Unmarshal")
 	if un != nil {
 		g := evalGuard(c.P, u, errCheckAtoms(u, func(cl *ssa.Call) bool { return cl == un }, "asn1 error"), uspec, nil)
-		c.Check(g.OK, "K-C02-asn1", fname(u), "ASN.1 parse error is returned", g.Why, g.Why, g.Pos)
+		c.Check(g.OK, asn1Rule, fname(u), "ASN.1 parse error is returned", g.Why, g.Why, g.Pos)
 	}
 	// DecryptAsn1 = Decrypt(priv, CipherUnmarshal(data), C1C3C2); EncryptAsn1 = CipherMarshal(Encrypt(..., C1C3C2))
 	if d := c.Fn("sm2", "DecryptAsn1"); d != nil {
@@ -660,11 +663,11 @@ func c02ASN1(c *Ctx) {
 		cu := findCall(d, "CipherUnmarshal")
 		if cu != nil {
 			g := evalGuard(c.P, d, errCheckAtoms(d, func(cl *ssa.Call) bool { return cl == cu }, "unmarshal error"), dspec, callsNamed(d, "Decrypt"))
-			c.Check(g.OK, "K-C02-asn1", fname(d), "unmarshal error is returned", g.Why, g.Why, g.Pos)
+			c.Check(g.OK, asn1Rule, fname(d), "unmarshal error is returned", g.Why, g.Why, g.Pos)
 		}
 		if dc := findCall(d, "Decrypt"); dc != nil {
 			got := dbe.bytesOf(dc, dc).String()
-			c.Check(got == "call:sm2.Decrypt(priv,res0(call:sm2.CipherUnmarshal(data)),global:C1C3C2)", "K-C02-asn1", fname(d), "Decrypt(priv, CipherUnmarshal(data), C1C3C2)", "", "DecryptAsn1 calls "+got, dc.Pos())
+			c.Check(got == "call:sm2.Decrypt(priv,res0(call:sm2.CipherUnmarshal(data)),global:C1C3C2)", asn1Rule, fname(d), "Decrypt(priv, CipherUnmarshal(data), C1C3C2)", "", "DecryptAsn1 calls "+got, dc.Pos())
 		}
 	}
 }
